@@ -44,6 +44,7 @@ def body(c):
     def var(n): return {"k": "var", "name": n}
     def fld(d, name, alias="", args=None): return {"d": d, "k": "field", "name": name, "alias": alias, "on": "", "dir": "", "args": args or []}
     def A(name, val): return {"name": name, "val": val}
+    def obj(*kv): return {"k": "obj", "entries": [{"key": k, "val": v} for k, v in kv]}
     vdefs = [{"name": "x", "ty": I, "hasDefault": True, "default": iv(5)}, {"name": "y", "ty": I, "hasDefault": False, "default": iv(0)}]
     arg_docs = [
         [fld(1, "a"), fld(2, "arg", args=[A("x", var("x")), A("y", var("y"))]), fld(2, "n")],
@@ -51,6 +52,10 @@ def body(c):
         [fld(1, "a"), {"d": 2, "k": "spread", "name": "", "alias": "", "on": "A", "dir": ""}, fld(3, "arg", args=[A("x", var("x"))]), fld(2, "id")],
         [fld(1, "node"), {"d": 2, "k": "inline", "name": "", "alias": "", "on": "A", "dir": ""}, fld(3, "self"), fld(4, "arg", args=[A("y", var("x"))]), fld(4, "arg", "z", args=[A("x", iv(1)), A("y", iv(2))])],
         [fld(1, "ann"), fld(2, "selfNN"), fld(3, "arg", "p", args=[A("x", var("y"))]), fld(3, "n")],
+        # input-object literals containing variables (supplied / default / omitted: the entry is absent)
+        [fld(1, "a"), fld(2, "arg", args=[A("o", obj(("min", var("y")), ("max", iv(3))))]), fld(2, "n")],
+        [fld(1, "a"), fld(2, "arg", args=[A("o", obj(("min", var("x"))))]), fld(2, "arg", "k", args=[A("x", iv(1)), A("o", obj(("max", var("y"))))])],
+        [fld(1, "node"), {"d": 2, "k": "inline", "name": "", "alias": "", "on": "A", "dir": ""}, fld(3, "self"), fld(4, "arg", args=[A("o", obj(("max", var("x")), ("min", var("y")))), A("y", var("y"))])],
     ]
     supplies = [[], [{"name": "x", "val": iv(1)}], [{"name": "y", "val": iv(2)}], [{"name": "x", "val": iv(1)}, {"name": "y", "val": iv(2)}]]
     world0 = gqlgen.WorldGen(ts, random.Random(c.seed + 99), p_null=0.0).world()
@@ -65,6 +70,8 @@ def body(c):
             cases.append({"id": 0, "flavour": "static", "doc": d, "opIndex": 1, "vars": sup, "world": world0, "schedule": [], "ext": False})
     for i, x in enumerate(cases):
         x["id"] = i + 1
+        x.setdefault("ext", i % 3 == 2)      # pass-through extension registered (extension-aware executor paths)
+        x.setdefault("stream", i % 4 == 1)   # executed through Schema::execute_stream (first item) instead of execute
     vlib.write_ndjson(c.path("cases.ndjson"), cases)
     (binary,) = vlib.build_harness(["cexec"])
     p = vlib.run_harness(binary, [c.path("cases.ndjson"), c.path("trace.ndjson"), execcheck.SCHEMA], timeout=3000)
